@@ -1,4 +1,170 @@
 import ClipVerif.Proofs.C14b
 /- helper lemmas for Props/C06.lean (may use Proofs.C14.getBounds_exact) -/
 namespace Proofs.C06
+open Gen
+
+/-! ### getLocation -/
+
+theorem getLocation_on_boundary (r : Rect64) (p : Point64) :
+    (getLocation r p).2 = false ↔
+      ((p.X = r.left ∨ p.X = r.right) ∧ r.top ≤ p.Y ∧ p.Y ≤ r.bottom) ∨
+      ((p.Y = r.top ∨ p.Y = r.bottom) ∧ r.left ≤ p.X ∧ p.X ≤ r.right) := by
+  unfold getLocation
+  simp only [Id.run, pure, ge_iff_le, Bool.and_eq_true, decide_eq_true_eq]
+  split
+  · rename_i h; refine ⟨fun _ => ?_, fun _ => rfl⟩; exact Or.inl ⟨Or.inl h.1.1, h.1.2, h.2⟩
+  · split
+    · rename_i h; refine ⟨fun _ => ?_, fun _ => rfl⟩; exact Or.inl ⟨Or.inr h.1.1, h.1.2, h.2⟩
+    · split
+      · rename_i h; refine ⟨fun _ => ?_, fun _ => rfl⟩; exact Or.inr ⟨Or.inl h.1.1, h.1.2, h.2⟩
+      · split
+        · rename_i h; refine ⟨fun _ => ?_, fun _ => rfl⟩; exact Or.inr ⟨Or.inr h.1.1, h.1.2, h.2⟩
+        · rename_i h1 h2 h3 h4
+          have hs : ∀ (c : Prop) [Decidable c] (x y : Int × Bool), x.2 = true → y.2 = true →
+              (if c then x else y).2 = true := by
+            intro c _ x y hx hy; split <;> assumption
+          rw [hs _ _ _ rfl (hs _ _ _ rfl (hs _ _ _ rfl (hs _ _ _ rfl rfl)))]
+          simp only [Bool.true_eq_false, false_iff]
+          rintro (⟨hx | hx, ha, hb⟩ | ⟨hy | hy, ha, hb⟩)
+          · exact h1 ⟨⟨hx, ha⟩, hb⟩
+          · exact h2 ⟨⟨hx, ha⟩, hb⟩
+          · exact h3 ⟨⟨hy, ha⟩, hb⟩
+          · exact h4 ⟨⟨hy, ha⟩, hb⟩
+
+theorem getLocation_off_boundary (r : Rect64) (p : Point64)
+    (hb : (getLocation r p).2 = true) :
+    ((getLocation r p).1 = 4 ↔ (r.left < p.X ∧ p.X < r.right ∧ r.top < p.Y ∧ p.Y < r.bottom)) ∧
+    ((getLocation r p).1 = 0 → p.X < r.left) ∧ ((getLocation r p).1 = 2 → p.X > r.right) ∧
+    ((getLocation r p).1 = 1 → p.Y < r.top) ∧ ((getLocation r p).1 = 3 → p.Y > r.bottom) ∧
+    (0 ≤ (getLocation r p).1 ∧ (getLocation r p).1 ≤ 4) := by
+  revert hb
+  unfold getLocation
+  simp only [Id.run, pure, ge_iff_le, gt_iff_lt, Bool.and_eq_true, decide_eq_true_eq,
+    C_Left, C_Right, C_Top, C_Bottom, C_Inside]
+  split
+  · intro h; exact absurd h (by decide)
+  split
+  · intro h; exact absurd h (by decide)
+  split
+  · intro h; exact absurd h (by decide)
+  split
+  · intro h; exact absurd h (by decide)
+  rename_i h1 h2 h3 h4
+  intro _
+  simp only [Int64.lt_iff_toInt_lt, Int64.le_iff_toInt_le, ← Int64.toInt_inj] at *
+  split
+  · simp; omega
+  split
+  · simp; omega
+  split
+  · simp; omega
+  split
+  · simp; omega
+  · simp; omega
+
+/-! ### location algebra -/
+
+theorem adjacent_location_cycle (loc : Int) (h : 0 ≤ loc ∧ loc ≤ 3) :
+    getAdjacentLocation (getAdjacentLocation loc true) false = loc ∧
+    getAdjacentLocation (getAdjacentLocation loc false) true = loc ∧
+    headingClockwise loc (getAdjacentLocation loc true) = true ∧
+    headingClockwise loc (getAdjacentLocation loc false) = false ∧
+    (0 ≤ getAdjacentLocation loc true ∧ getAdjacentLocation loc true ≤ 3) := by
+  obtain ⟨h0, h3⟩ := h
+  have : loc = 0 ∨ loc = 1 ∨ loc = 2 ∨ loc = 3 := by omega
+  rcases this with rfl | rfl | rfl | rfl <;> decide
+
+theorem round53Nat_small (n : Nat) (h : n < 2 ^ 53) : F.round53Nat n = n := by
+  unfold F.round53Nat F.bitlen
+  by_cases h0 : n = 0
+  · simp [h0]
+  · have : n.log2 < 53 := (Nat.log2_lt h0).mpr h
+    simp only [h0, if_false]
+    rw [if_pos (by omega)]
+
+theorem round53_small (z : Int) (h : z.natAbs < 2 ^ 53) : F.round53 z = z := by
+  unfold F.round53
+  rw [round53Nat_small _ h]
+  split <;> omega
+
+theorem areOpposites_iff (a b : Int) (ha : 0 ≤ a ∧ a ≤ 4) (hb : 0 ≤ b ∧ b ≤ 4) :
+    areOpposites a b = true ↔ (a - b = 2 ∨ b - a = 2) := by
+  unfold areOpposites
+  have hr : F.ofInt (a - b) = a - b := round53_small _ (by omega)
+  simp only [Id.run, pure, decide_eq_true_eq]
+  rw [hr]
+  have habs : F.toInt (F.abs (a - b)) = if a - b < 0 then -(a - b) else a - b := rfl
+  rw [habs]
+  split <;> omega
+
+/-! ### getEdgesForPt -/
+
+theorem getEdgesForPt_spec (p : Point64) (r : Rect64) (h : r.left < r.right ∧ r.top < r.bottom) :
+    (getEdgesForPt p r % 2 = 1 ↔ p.X = r.left) ∧ (getEdgesForPt p r / 2 % 2 = 1 ↔ p.Y = r.top) ∧
+    (getEdgesForPt p r / 4 % 2 = 1 ↔ p.X = r.right) ∧ (getEdgesForPt p r / 8 % 2 = 1 ↔ p.Y = r.bottom) := by
+  obtain ⟨hx, hy⟩ := h
+  unfold getEdgesForPt
+  simp only [Id.run, pure, decide_eq_true_eq]
+  rw [Int64.lt_iff_toInt_lt] at hx hy
+  simp only [← Int64.toInt_inj]
+  split <;> split <;> (try split) <;> (try split) <;> simp <;> omega
+
+/-! ### fast paths -/
+
+theorem contains_bounds_all_inside (r : Rect64) (path : List Point64) (hne : path ≠ [])
+    (hc : Rect64_Contains r (getBounds path) = true) :
+    ∀ p ∈ path, r.left ≤ p.X ∧ p.X ≤ r.right ∧ r.top ≤ p.Y ∧ p.Y ≤ r.bottom := by
+  obtain ⟨hall, _⟩ := Proofs.C14.getBounds_exact path hne
+  unfold Rect64_Contains at hc
+  simp only [Id.run, pure, ge_iff_le, Bool.and_eq_true, decide_eq_true_eq] at hc
+  obtain ⟨⟨⟨c1, c2⟩, c3⟩, c4⟩ := hc
+  intro p hp
+  obtain ⟨b1, b2, b3, b4⟩ := hall p hp
+  simp only [Int64.le_iff_toInt_le] at *
+  omega
+
+theorem max_toInt (a b : Int64) : (max a b).toInt = max a.toInt b.toInt := by
+  have : max a b = if a ≤ b then b else a := rfl
+  rw [this]
+  split
+  · rename_i h; rw [Int64.le_iff_toInt_le] at h; omega
+  · rename_i h; rw [Int64.le_iff_toInt_le] at h; omega
+
+theorem min_toInt (a b : Int64) : (min a b).toInt = min a.toInt b.toInt := by
+  have : min a b = if a ≤ b then a else b := rfl
+  rw [this]
+  split
+  · rename_i h; rw [Int64.le_iff_toInt_le] at h; omega
+  · rename_i h; rw [Int64.le_iff_toInt_le] at h; omega
+
+theorem not_intersects_all_outside (r : Rect64) (path : List Point64) (hne : path ≠ [])
+    (h : r.left ≤ r.right ∧ r.top ≤ r.bottom)
+    (hc : Rect64_Intersects r (getBounds path) = false) :
+    (∀ p ∈ path, p.X < r.left) ∨ (∀ p ∈ path, p.X > r.right) ∨ (∀ p ∈ path, p.Y < r.top) ∨
+      (∀ p ∈ path, p.Y > r.bottom) := by
+  obtain ⟨hall, ⟨q, hq, _⟩, _⟩ := Proofs.C14.getBounds_exact path hne
+  obtain ⟨w1, w2⟩ := h
+  obtain ⟨q1, q2, q3, q4⟩ := hall q hq
+  unfold Rect64_Intersects at hc
+  simp only [Id.run, pure, Bool.and_eq_false_iff, decide_eq_false_iff_not,
+    Int64.le_iff_toInt_le, max_toInt, min_toInt] at hc
+  simp only [Int64.le_iff_toInt_le] at w1 w2 q1 q2 q3 q4
+  simp only [gt_iff_lt, Int64.lt_iff_toInt_lt]
+  have key : ∀ p ∈ path, (getBounds path).left.toInt ≤ p.X.toInt ∧ p.X.toInt ≤ (getBounds path).right.toInt ∧
+      (getBounds path).top.toInt ≤ p.Y.toInt ∧ p.Y.toInt ≤ (getBounds path).bottom.toInt := by
+    intro p hp
+    have := hall p hp
+    simpa only [Int64.le_iff_toInt_le] using this
+  rcases hc with hc | hc
+  · by_cases hl : (getBounds path).right.toInt < r.left.toInt
+    · left; intro p hp; have := key p hp; omega
+    · right; left; intro p hp; have := key p hp; omega
+  · by_cases hl : (getBounds path).bottom.toInt < r.top.toInt
+    · right; right; left; intro p hp; have := key p hp; omega
+    · right; right; right; intro p hp; have := key p hp; omega
+
+theorem isEmpty_iff (r : Rect64) : Rect64_IsEmpty r = true ↔ (r.bottom ≤ r.top ∨ r.right ≤ r.left) := by
+  unfold Rect64_IsEmpty
+  simp only [Id.run, pure, Bool.or_eq_true, decide_eq_true_eq]
+
 end Proofs.C06
